@@ -548,6 +548,12 @@ impl Calendar {
             AnyCalendarKind::Ethiopian if era::ETHIOPIC_ERA_IDENTIFIERS.contains(era_alias) => {
                 Some(era::ETHIOPIC_ERA)
             }
+            // The era ICU4X reports for the years before the incarnation era.
+            AnyCalendarKind::Ethiopian
+                if era::ETHIOPIC_INVERSE_ERA_IDENTIFIERS.contains(era_alias) =>
+            {
+                Some(era::ETHIOPIC_INVERSE_ERA)
+            }
             AnyCalendarKind::Ethiopian
                 if era::ETHIOPIC_ETHOPICAA_ERA_IDENTIFIERS.contains(era_alias) =>
             {
